@@ -4,6 +4,7 @@ CONSTANTS
   MaxLen = 6
   Scale = 1
   LawId = "asym"
+  LawTable <- EmptyTable
   FixedJunction = TRUE
 INVARIANT Counters
 INVARIANT RunsOrdered
